@@ -108,6 +108,7 @@ def run_history(ctx, history, label):
             seen.append(current)
             continue
         ctx.transitions += 1
+        impl._H.ticks = 0
         name = ev[1]
         try:
             got = table[name]()
@@ -122,10 +123,13 @@ def run_history(ctx, history, label):
                           {"kind": "history", "history": history},
                           {"fresh_single_mode_process": want, "mode": current, "event_index": i}, got)
         ctx.outcome("value:" + name, json.dumps(got))
+        if name == "cli_offset":
+            # the CLI probe passes --calendar <CLI spelling of the current mode>: same calendar, canonical spelling
+            current = probes.CLI_SPELLING[current]
     ctx.traces += 1
     ctx.state((label, tuple(tuple(e) for e in history)))
     # mode left behind must be what the last switch said
-    if impl.CAL.mode.lower() != (current or "gregorian").lower() and not (history[-1][0] == "Q" and history[-1][1] == "cli_offset"):
+    if impl.CAL.mode.lower() != (current or "gregorian").lower():
         ctx.violation("mode_after_history", {"label": label}, {"kind": "history", "history": history}, current, impl.CAL.mode)
 
 
@@ -221,7 +225,10 @@ def run_unit(unit, ctx):
                 vals = set(json.dumps(fresh(sp)["forward"][k]) for sp in CANON)
                 ctx.outcome("probe_discriminates:" + k, len(vals))
                 if len(vals) < 2:
-                    raise RuntimeError("probe %s is mode-blind" % k)
+                    # on the unchanged tree every probe discriminates the modes (asserted when the probe set was
+                    # designed); a probe that has become mode-blind means the modes no longer differ as defined
+                    ctx.violation("probe_mode_blind", {"probe": k}, {"kind": "fresh", "mode": "all"},
+                                  "values differ between calendar modes", sorted(vals))
         elif u == "triples":
             _, a, b = unit
             for c3 in SPELLINGS:
